@@ -1,7 +1,7 @@
 #!/usr/bin/env python3
 """Confirm a seeded change produced by an independent sub-agent and run our checks against it.
 
-usage: eval_seed.py <property id> <worktree> <check>[,<check>...] [--skip-confirm]
+usage: eval_seed.py <property id> <worktree> <check>[,<check>...] [--skip-confirm] [--thorough] [--label <dir name under seeded/>]
 
 1. confirmation in the agent's own scratch worktree: apply _seed/patch.diff, rebuild, run the repository's
    ctest suite (must pass except customfunction_*), run _seed/run.sh (must FAIL), revert, rebuild, run
@@ -33,7 +33,8 @@ def main():
     skip = "--skip-confirm" in sys.argv
     tier = "thorough" if "--thorough" in sys.argv else "quick"
     seed = os.path.join(wt, "_seed")
-    out = os.path.join(VERIF, "seeded", pid)
+    label = sys.argv[sys.argv.index("--label") + 1] if "--label" in sys.argv else pid
+    out = os.path.join(VERIF, "seeded", label)
     os.makedirs(out, exist_ok=True)
     res = {"property": pid, "ran": [], "confirmed": None}
     bd = "_build_seed" if os.path.exists(os.path.join(wt, "_build_seed", "build.ninja")) else "_build"
@@ -58,7 +59,7 @@ def main():
         if os.path.isfile(p) and os.path.getsize(p) < 2_000_000:
             shutil.copy(p, out)
     # run our checks against /repo/src + patch
-    root = "/tmp/verif_seed_%s" % pid
+    root = "/tmp/verif_seed_%s" % label
     shutil.rmtree(root, ignore_errors=True)
     shutil.copytree("/repo/src", os.path.join(root, "src"))
     rc, o = sh("patch -p1 --no-backup-if-mismatch < %s" % os.path.join(out, "patch.diff"), cwd=root)
@@ -67,20 +68,20 @@ def main():
         print("patch does not apply to current /repo/src:\n" + o[-800:])
     else:
         for chk in checks.split(","):
-            env = dict(os.environ, VERIF_REPO=root, VERIF_SCRATCH_TAG="seed" + pid)
+            env = dict(os.environ, VERIF_REPO=root, VERIF_SCRATCH_TAG="seed" + label)
             t0 = time.time()
             rc, o = sh("%s %s --tier %s" % (os.path.join(VERIF, "vcheck"), chk, tier), env=env, timeout=7200)
             keys = [l.strip()[:300] for l in o.splitlines() if l.strip().startswith("key=")]
             verdict = "fired" if rc == 1 and keys else ("missed" if rc == 0 else "inconclusive")
             res["ran"].append({"check": chk, "tier": tier, "verdict": verdict, "exit": rc, "seconds": round(time.time() - t0),
                                "first_keys": keys[:4], "tail": o.strip().splitlines()[-1:]})
-            print("SEED %s vs %s: %s (exit %d) %s" % (pid, chk, verdict, rc, keys[:2]))
+            print("SEED %s vs %s: %s (exit %d) %s" % (label, chk, verdict, rc, keys[:2]))
     shutil.rmtree(root, ignore_errors=True)
     tag = hashlib.sha256(root.encode()).hexdigest()[:8]
     for d in glob.glob(os.path.join(VERIF, ".cache", "*@%s*" % tag)):
         shutil.rmtree(d, ignore_errors=True) if os.path.isdir(d) else os.unlink(d)
-    for d in glob.glob(os.path.join(VERIF, "replays", "*_seed" + pid)) + glob.glob(os.path.join(VERIF, "work", "*_seed" + pid)) + \
-            glob.glob(os.path.join(VERIF, "work", "evidence_seed" + pid)):
+    for d in glob.glob(os.path.join(VERIF, "replays", "*_seed" + label)) + glob.glob(os.path.join(VERIF, "work", "*_seed" + label)) + \
+            glob.glob(os.path.join(VERIF, "work", "evidence_seed" + label)):
         shutil.rmtree(d, ignore_errors=True)
     prev = {}
     rp = os.path.join(out, "result.json")
